@@ -679,5 +679,1029 @@ Qed.
 
 Lemma mu_start w : InvT w -> mu (stepT w LStart) = mu w.
 Proof.
-  intro HI. unfold mu. f_equal. apply sumf_ext. intros t _. apply tau_ext; try reflexivity.
-Abort.
+  intro HI. unfold mu. f_equal. apply sumf_ext. intros t _. unfold tau.
+  cbn [Control.step wst wcl wph wpend set_ms].
+  destruct (wst w t); try reflexivity. destruct (wph w t) as [| |m] eqn:Eph; try reflexivity.
+  assert (Hm : m < length (wms w)) by (apply (i_phb compute g roots w HI t m); auto).
+  unfold getm at 1. cbn [wms set_ms]. rewrite getm_app by exact Hm. reflexivity.
+Qed.
+
+(* ------------------------------------------------------------------ every own step decreases *)
+
+Lemma Good_step_IK w l : Good w -> InvT (stepT w l) /\ K (stepT w l).
+Proof.
+  intros (HI & HK & _). split.
+  - apply step_inv; assumption.
+  - apply step_K; auto.
+Qed.
+
+Lemma find_task_some p t : find_task g p = Some t -> t < n /\ p t = true.
+Proof.
+  unfold find_task. intro H. apply find_some in H as [H1 H2]. apply in_seq in H1. split; [lia|exact H2].
+Qed.
+
+Lemma find_task_none p : find_task g p = None -> forall t, t < n -> p t = false.
+Proof.
+  unfold find_task. intros H t Ht. apply (find_none _ _ H). apply in_seq. lia.
+Qed.
+
+Lemma phase_none w t :
+  find_task g (fun t => is_mid (wph w t)) = None ->
+  find_task g (fun t => is_replied (wph w t)) = None -> t < n -> wph w t = PNone.
+Proof.
+  intros H1 H2 Ht. pose proof (find_task_none _ H1 t Ht) as A1. pose proof (find_task_none _ H2 t Ht) as A2.
+  cbn beta in A1, A2. destruct (wph w t); [reflexivity|discriminate|discriminate].
+Qed.
+
+Lemma pick_machine_some w m : pick_machine w = Some m ->
+  m < length (wms w) /\ mlost (getm w m) = false.
+Proof.
+  unfold pick_machine. intro H. apply find_some in H as [H1 H2]. apply in_seq in H1.
+  split; [lia|]. apply negb_true_iff in H2. exact H2.
+Qed.
+
+Definition spend (l : label) (spares : nat) : nat := if is_start l then pred spares else spares.
+
+Lemma next_progress spares w l :
+  Good w -> werr w = false -> nextT spares w = Some l ->
+  Good (stepT w l) /\ mu (stepT w l) + spend l spares < mu w + spares.
+Proof.
+  intros HGood He Hn. destruct (Good_step_IK w l HGood) as [HI' HK'].
+  destruct HGood as (HI & HK & HG).
+  assert (Hgoal : G (stepT w l) /\ mu (stepT w l) + spend l spares < mu w + spares);
+    [|destruct Hgoal as [Ha Hb]; split; [split; [exact HI'|split; [exact HK'|exact Ha]]|exact Hb]].
+  clear HI' HK'. unfold next in Hn.
+  destruct (find_task g (fun t => is_mid (wph w t))) as [t|] eqn:Fm.
+  { inversion Hn; subst l. apply find_task_some in Fm as [Ht Hp].
+    destruct (wph w t) as [| |m] eqn:Eph; try discriminate.
+    split; [eapply G_reply2; eauto|]. unfold spend. cbn [is_start].
+    pose proof (dec_reply2 w t m HG HK Eph). lia. }
+  destruct (find_task g (fun t => is_replied (wph w t))) as [t|] eqn:Fr.
+  { inversion Hn; subst l. apply find_task_some in Fr as [Ht Hp].
+    destruct (wph w t) as [|m|] eqn:Eph; try discriminate.
+    split; [eapply G_reply1; eauto|]. unfold spend. cbn [is_start].
+    pose proof (dec_reply1 w t m HG HK He Eph). lia. }
+  assert (Hrest :
+    match (if active w then find (fun t => ge_ok (wst w t)) (wpend w) else None) with
+    | Some t => Some (LReturn t)
+    | None => match (if active w then runnable g roots w else []) with
+              | t :: _ => Some (LDispatch t)
+              | [] => if finish_ok roots w then Some LFinish
+                      else if scan_ok roots w then Some LScan else None
+              end
+    end = Some l -> G (stepT w l) /\ mu (stepT w l) + spend l spares < mu w + spares).
+  { clear Hn. intro Hn.
+    destruct (if active w then find (fun t => ge_ok (wst w t)) (wpend w) else None) as [t|] eqn:Fret.
+    { inversion Hn; subst l. destruct (active w) eqn:Ha; [|discriminate].
+      apply find_some in Fret as [Hin Hge]. apply mem_In in Hin.
+      assert (Ht : t < n) by (apply (g_lt w HG); exact Hin).
+      pose proof (phase_none w t Fm Fr Ht) as Eph.
+      split; [apply G_return; auto|]. unfold spend. cbn [is_start].
+      pose proof (dec_return w t HG He Ha Hin Hge Eph). lia. }
+    destruct (if active w then runnable g roots w else []) as [|t rest] eqn:Frun.
+    2:{ inversion Hn; subst l. destruct (active w) eqn:Ha; [|discriminate].
+        assert (Hr : mem t (runnable g roots w) = true) by (apply mem_In; rewrite Frun; left; reflexivity).
+        split; [apply G_dispatch; auto|]. unfold spend. cbn [is_start].
+        pose proof (dec_dispatch w t HG HK He Ha Hr). lia. }
+    destruct (finish_ok roots w) eqn:Ff.
+    { inversion Hn; subst l. split; [apply G_finish; auto|]. unfold spend. cbn [is_start].
+      pose proof (dec_finish w Ff). lia. }
+    destruct (scan_ok roots w) eqn:Fs; [|discriminate].
+    inversion Hn; subst l. split; [apply G_scan; auto|]. unfold spend. cbn [is_start].
+    pose proof (dec_scan w HG Fs). lia. }
+  destruct (find_task g (fun t => st_eqb (wst w t) TWaiting && is_none (wph w t))) as [t|] eqn:Fw;
+    [|apply Hrest; exact Hn].
+  apply find_task_some in Fw as [Ht Hp]. apply andb_true_iff in Hp as [Hp1 Hp2].
+  assert (Est : wst w t = TWaiting) by (destruct (wst w t); try discriminate; reflexivity).
+  assert (Eph : wph w t = PNone) by (destruct (wph w t); try discriminate; reflexivity).
+  destruct (pick_machine w) as [m|] eqn:Fp.
+  { inversion Hn; subst l. apply pick_machine_some in Fp as [Hm Hl].
+    split; [apply G_run; auto|]. unfold spend. cbn [is_start].
+    pose proof (dec_run w t m HG He Est Eph Hm Hl). lia. }
+  destruct spares as [|sp]; [apply Hrest; exact Hn|].
+  inversion Hn; subst l. split; [apply G_start; auto|]. unfold spend. cbn [is_start pred].
+  rewrite (mu_start w HI). lia.
+Qed.
+
+(* ------------------------------------------------------------------ never out of fuel *)
+
+Definition is_env (l : label) : bool :=
+  match l with LKill _ | LNotice _ | LStart => true | _ => false end.
+
+Lemma Good_env w l : is_env l = true -> Good w -> Good (stepT w l).
+Proof.
+  intros He HGood. destruct (Good_step_IK w l HGood) as [HI' HK']. destruct HGood as (_ & _ & HG).
+  split; [exact HI'|]. split; [exact HK'|].
+  destruct l; try discriminate; [apply G_kill|apply G_notice|apply G_start]; exact HG.
+Qed.
+
+Lemma Good_init k : Good (init_world k).
+Proof. unfold Good. refine (conj _ (conj _ _)); [apply inv_init|apply K_init|apply G_init]. Qed.
+
+Lemma outcome_none w : outcome_of w = None ->
+  werr w = false /\ (wmode w = MEval \/ exists i acc k, wmode w = MScan i acc k).
+Proof.
+  unfold outcome_of. destruct (wmode w); try discriminate; destruct (werr w); try discriminate;
+    intros _; split; eauto.
+Qed.
+
+Lemma outcome_not_oof w : outcome_of w <> Some OutOfFuel.
+Proof. unfold outcome_of. destruct (wmode w); try discriminate; destruct (werr w); discriminate. Qed.
+
+Definition env_inj (inj : list (nat * label)) : Prop := Forall (fun p => is_env (snd p) = true) inj.
+
+Lemma drive_no_oof : forall fuel spares w inj,
+  Good w -> env_inj inj ->
+  length inj * (Mbound + 2) + mu w + spares < fuel ->
+  driveT fuel spares w inj <> OutOfFuel.
+Proof.
+  induction fuel as [|f IH]; intros spares w inj HGood Henv Hf; [lia|].
+  cbn [drive]. destruct (outcome_of w) as [o|] eqn:Eo.
+  { intro E. subst o. exact (outcome_not_oof w Eo). }
+  destruct (outcome_none w Eo) as [He _].
+  assert (Henvstep : forall k e r, inj = (k, e) :: r ->
+            driveT f spares (stepT w e) r <> OutOfFuel).
+  { intros k e r E. subst inj. inversion Henv as [|p q Hp Hq]; subst. cbn [snd] in Hp.
+    apply IH; [apply Good_env; assumption|exact Hq|].
+    pose proof (mu_le (stepT w e)). cbn [length] in Hf. lia. }
+  destruct inj as [|[[|k] e] r].
+  - destruct (nextT spares w) as [l|] eqn:En; [|discriminate].
+    destruct (next_progress spares w l HGood He En) as [HG' Hdec]. unfold spend in Hdec.
+    apply IH; [exact HG'|constructor|]. cbn [length] in *. lia.
+  - eapply Henvstep; reflexivity.
+  - destruct (nextT spares w) as [l|] eqn:En; [|eapply Henvstep; reflexivity].
+    destruct (next_progress spares w l HGood He En) as [HG' Hdec]. unfold spend in Hdec.
+    apply IH; [exact HG'| |].
+    + inversion Henv; subst. constructor; assumption.
+    + cbn [length] in *. lia.
+Qed.
+
+Definition fuel_bound (ninj spares : nat) : nat := S (ninj * (Mbound + 2) + Mbound + spares).
+
+(* the model-level "never blocks forever": with the explicit fuel bound the fair
+   scheduler always reaches an outcome (success, error, or waiting for a machine
+   that the system never provides), whatever finite list of losses is injected *)
+Theorem never_hangs : forall k spares inj fuel,
+  env_inj inj -> fuel_bound (length inj) spares <= fuel ->
+  driveT fuel spares (init_world k) inj <> OutOfFuel.
+Proof.
+  intros k spares inj fuel Henv Hf. apply drive_no_oof; [apply Good_init|exact Henv|].
+  pose proof (mu_le (init_world k)). unfold fuel_bound in Hf. lia.
+Qed.
+
+(* ------------------------------------------------------------------ recovery: the loss budget *)
+
+Definition readable (w : world) (d : nat) : bool :=
+  is_ok (wst w d) && match read_loc w d with Some _ => true | None => false end.
+
+(* 1 if the current attempt of t is already doomed (or lost and not yet counted) *)
+Definition debt (w : world) (t : nat) : nat :=
+  match wst w t with
+  | TWaiting => if forallb (readable w) (deps_of g t) then 0 else 1
+  | TRunning => match wph w t with PReplied m => if mlost (getm w m) then 1 else 0 | _ => 0 end
+  | TOk => match wph w t with PMid m => if mlost (getm w m) then 1 else 0 | _ => 0 end
+  | TInit | TLost => if mem t (wpend w) then 1 else 0
+  | TErr => 0
+  end.
+
+Lemma debt_le1 w t : debt w t <= 1.
+Proof.
+  unfold debt. destruct (wst w t); try lia.
+  - destruct (mem t (wpend w)); lia.
+  - destruct (forallb _ _); lia.
+  - destruct (wph w t); try lia. destruct (mlost _); lia.
+  - destruct (wph w t); try lia. destruct (mlost _); lia.
+  - destruct (mem t (wpend w)); lia.
+Qed.
+
+(* c = number of machine losses so far *)
+Record Rec (w : world) (c : nat) : Prop := mkRec {
+  r_alive : forall m, mlost (getm w m) = false -> malive (getm w m) = true;
+  r_dead : forall m, mlost (getm w m) = true -> malive (getm w m) = false;
+  r_err : werr w = false /\ wmode w <> MFail;
+  r_debt : forall t, wcl w t + debt w t <= c;
+  r_run : forall t, wst w t = TRunning -> exists m, wph w t = PReplied m;
+  r_init : forall t, mem t (wpend w) = true -> wst w t <> TInit;
+  r_unc : forall t, wunc w t = true -> mem t (wpend w) = true
+}.
+
+Lemma getm_init k m : getm (init_world k) m = if Nat.ltb m k then mkM true false [] [] else dead_mach.
+Proof.
+  unfold getm. cbn [wms init_world]. destruct (Nat.ltb_spec m k) as [Hl|Hg].
+  - rewrite (nth_indep _ _ (mkM true false [] [])) by (rewrite repeat_length; exact Hl).
+    apply nth_repeat.
+  - apply nth_overflow. rewrite repeat_length. exact Hg.
+Qed.
+
+Lemma Rec_init k : Rec (init_world k) 0.
+Proof.
+  constructor.
+  - intros m. rewrite getm_init. destruct (Nat.ltb m k); cbn; auto.
+  - intros m. rewrite getm_init. destruct (Nat.ltb m k); cbn; auto.
+  - split; [reflexivity|discriminate].
+  - intro t. cbn. lia.
+  - cbn. discriminate.
+  - cbn. discriminate.
+  - cbn. discriminate.
+Qed.
+
+Lemma Rec_weaken w c c' : c <= c' -> Rec w c -> Rec w c'.
+Proof.
+  intros Hc [R1 R1' R2 R3 R4 R5 R6]. constructor; auto. intro t. specialize (R3 t). lia.
+Qed.
+
+(* own steps other than LStart do not touch liveness or loss flags *)
+Lemma own_machines w l :
+  match l with LKill _ | LNotice _ | LStart => False | _ => True end ->
+  forall m, malive (getm (stepT w l) m) = malive (getm w m) /\
+            mlost (getm (stepT w l) m) = mlost (getm w m).
+Proof.
+  intros Hl m. destruct l; try contradiction; cbn [Control.step].
+  - destruct (active w && mem t (runnable g roots w)); [|auto].
+    match goal with |- context [if ?c then count_lost _ _ _ else _] => destruct c end;
+      unfold count_lost; repeat match goal with |- context [if ?c then _ else _] => destruct c end; auto.
+  - destruct (wst w t); auto. destruct (wph w t); auto.
+    destruct (Nat.ltb m0 (length (wms w)) && negb (mlost (getm w m0))) eqn:E; auto.
+    destruct (if malive (getm w m0) then gather w m0 (deps_of g t) else None); auto.
+    change (getm (set_ph ?a ?b)) with (getm (commit w m0 t (compute t l))).
+    unfold commit. rewrite getm_upd. apply andb_true_iff in E as [E _]. rewrite E, andb_true_r.
+    destruct (Nat.eqb_spec m m0) as [->|]; auto.
+  - destruct (wph w t); auto.
+  - destruct (wph w t); auto. change (getm (set_ph ?a ?b)) with (getm (assign w m0 t)).
+    destruct (assign_frame w m0 t) as (_ & B & _). destruct (B m) as (b1 & _ & b3). auto.
+  - destruct (active w && mem t (wpend w) && ge_ok (wst w t)); auto.
+    destruct (wst w t); unfold count_lost;
+      repeat match goal with |- context [if ?c then _ else _] => destruct c end; auto.
+  - destruct (wmode w); auto. match goal with |- context [if ?c then _ else _] => destruct c end; auto.
+  - destruct (wmode w); auto. destruct (nth_error roots i) as [r|]; auto.
+    match goal with |- context [if ?c && _ && _ then _ else _] => destruct c end; cbn [andb]; auto.
+    match goal with |- context [if ?c && _ then _ else _] => destruct c end; cbn [andb]; auto.
+    destruct (is_ok (wst w r)); auto.
+    destruct (read_loc w r); auto.
+Qed.
+
+Lemma readable_ext w w' d :
+  (wst w d = TOk -> wst w' d = TOk) -> wloc w' d = wloc w d ->
+  (forall m, wloc w d = Some m -> read_at w m d <> None -> read_at w' m d <> None) ->
+  readable w d = true -> readable w' d = true.
+Proof.
+  intros Hs Hl Hr. unfold readable, read_loc. rewrite Hl. intro H.
+  apply andb_true_iff in H as [H1 H2].
+  assert (E : wst w d = TOk) by (unfold is_ok in H1; destruct (wst w d); try discriminate; reflexivity).
+  rewrite (Hs E). cbn [is_ok st_eqb andb].
+  destruct (wloc w d) as [m|]; [|discriminate].
+  specialize (Hr m eq_refl). destruct (read_at w m d); [|discriminate].
+  destruct (read_at w' m d); [reflexivity|]. exfalso. apply Hr; [discriminate|reflexivity].
+Qed.
+
+Lemma debt_other w w' x :
+  wst w' x = wst w x -> wph w' x = wph w x -> mem x (wpend w') = mem x (wpend w) ->
+  (forall m, mlost (getm w' m) = mlost (getm w m)) ->
+  (forall d, readable w d = true -> readable w' d = true) ->
+  debt w' x <= debt w x.
+Proof.
+  intros E1 E2 E3 E4 E5. unfold debt. rewrite E1, E2, E3.
+  destruct (wst w x); try lia.
+  - destruct (forallb (readable w) (deps_of g x)) eqn:F.
+    + assert (F' : forallb (readable w') (deps_of g x) = true).
+      { rewrite forallb_forall in *. intros d Hd. apply E5. apply F. exact Hd. }
+      rewrite F'. lia.
+    + destruct (forallb (readable w') (deps_of g x)); lia.
+  - destruct (wph w x); try lia. rewrite E4. lia.
+  - destruct (wph w x); try lia. rewrite E4. lia.
+Qed.
+
+(* a step that keeps machines, locations and OK states keeps readability *)
+Lemma readable_same w w' :
+  wms w' = wms w -> wloc w' = wloc w -> (forall d, wst w d = TOk -> wst w' d = TOk) ->
+  forall d, readable w d = true -> readable w' d = true.
+Proof.
+  intros Hm Hl Hs d. apply readable_ext; auto.
+  - rewrite Hl. reflexivity.
+  - intros m _. unfold read_at. rewrite (getm_ms w w') by exact Hm. auto.
+Qed.
+
+Lemma Rec_task_step w w' c t :
+  Rec w c ->
+  (forall m, malive (getm w' m) = malive (getm w m) /\ mlost (getm w' m) = mlost (getm w m)) ->
+  werr w' = false -> wmode w' <> MFail ->
+  (forall x, x <> t -> wst w' x = wst w x /\ wph w' x = wph w x /\ wcl w' x = wcl w x /\
+                       mem x (wpend w') = mem x (wpend w) /\ wunc w' x = wunc w x) ->
+  (forall d, readable w d = true -> readable w' d = true) ->
+  wcl w' t + debt w' t <= c ->
+  (wst w' t = TRunning -> exists m, wph w' t = PReplied m) ->
+  (mem t (wpend w') = true -> wst w' t <> TInit) ->
+  (wunc w' t = true -> mem t (wpend w') = true) ->
+  Rec w' c.
+Proof.
+  intros [R1 R1' R2 R3 R4 R5 R6] Hm He Hmo Ho Hr Hd Hrun Hinit Hunc.
+  constructor.
+  - intros m. destruct (Hm m) as [a b]. rewrite a, b. apply R1.
+  - intros m. destruct (Hm m) as [a b]. rewrite a, b. apply R1'.
+  - auto.
+  - intros x. destruct (Nat.eq_dec x t) as [->|Hn]; [exact Hd|].
+    destruct (Ho x Hn) as (a & b & c' & d & e). rewrite c'.
+    assert (debt w' x <= debt w x); [|specialize (R3 x); lia].
+    apply debt_other; auto. intro m. apply Hm.
+  - intros x. destruct (Nat.eq_dec x t) as [->|Hn]; [exact Hrun|].
+    destruct (Ho x Hn) as (a & b & _). rewrite a, b. apply R4.
+  - intros x. destruct (Nat.eq_dec x t) as [->|Hn]; [exact Hinit|].
+    destruct (Ho x Hn) as (a & _ & _ & d & _). rewrite a, d. apply R5.
+  - intros x. destruct (Nat.eq_dec x t) as [->|Hn]; [exact Hunc|].
+    destruct (Ho x Hn) as (_ & _ & _ & d & e). rewrite d, e. apply R6.
+Qed.
+
+Lemma readable_inv w d : readable w d = true ->
+  wst w d = TOk /\ exists m r, wloc w d = Some m /\ malive (getm w m) = true /\
+                               lookup d (mstore (getm w m)) = Some r.
+Proof.
+  unfold readable, read_loc, read_at. intro H. apply andb_true_iff in H as [H1 H2]. split.
+  - unfold is_ok in H1. destruct (wst w d); try discriminate; reflexivity.
+  - destruct (wloc w d) as [m|]; [|discriminate]. destruct (malive (getm w m)) eqn:Ea; [|discriminate].
+    destruct (lookup d (mstore (getm w m))) as [r|] eqn:El; [|discriminate]. eauto.
+Qed.
+
+Lemma readable_intro w d m r : wst w d = TOk -> wloc w d = Some m -> malive (getm w m) = true ->
+  lookup d (mstore (getm w m)) = Some r -> readable w d = true.
+Proof.
+  intros H1 H2 H3 H4. unfold readable, read_loc, read_at. rewrite H1, H2, H3, H4. reflexivity.
+Qed.
+
+(* ---- LReply2 ---- *)
+Lemma Rec_reply2 w c t m : Good w -> Rec w c -> wph w t = PMid m -> Rec (stepT w (LReply2 t)) c.
+Proof.
+  intros (HI & HK & HG) HR Eph.
+  destruct (reply2_frame w t m Eph) as (F1 & F2 & F3 & F4 & F5 & F6 & F7 & F8 & F9).
+  pose proof (k_mid w HK t m Eph) as Hok. pose proof (g_mid w HG t m Eph) as Hp.
+  pose proof (i_midloc compute g roots w HI t m Eph) as Hloc.
+  pose proof (own_machines w (LReply2 t) I) as Hm.
+  assert (Hwloc : wloc (stepT w (LReply2 t)) = wloc w).
+  { cbn [Control.step]. rewrite Eph. cbn [wloc set_ph].
+    destruct (assign_frame w m t) as (_ & _ & _ & _ & E & _). exact E. }
+  assert (Hstore : forall m', mstore (getm (stepT w (LReply2 t)) m') = mstore (getm w m')).
+  { intro m'. cbn [Control.step]. rewrite Eph.
+    change (getm (set_ph ?a ?b)) with (getm (assign w m t)).
+    destruct (assign_frame w m t) as (_ & B & _). apply B. }
+  destruct HR as [R1 R1' R2 R3 R4 R5 R6].
+  pose proof (R3 t) as Hd. unfold debt in Hd. rewrite Hok, Eph in Hd.
+  set (w' := stepT w (LReply2 t)) in *. clearbody w'.
+  apply (Rec_task_step w w' c t); auto.
+  - constructor; auto.
+  - rewrite F5. apply R2.
+  - rewrite F1. apply R2.
+  - intros x Hx. rewrite F8, F7, F2, F4, F3 by exact Hx. rewrite upd_other by exact Hx. auto.
+  - intros d Hd'. destruct (readable_inv w d Hd') as (A1 & m' & r & A2 & A3 & A4).
+    apply (readable_intro w' d m' r).
+    + destruct (Nat.eq_dec d t) as [->|Hn]; [|rewrite F8; auto].
+      rewrite F9. rewrite Hloc in A2. inversion A2; subst m'.
+      destruct (mlost (getm w m)) eqn:El; [|exact A1].
+      rewrite (R1' m El) in A3. discriminate.
+    + rewrite Hwloc. exact A2.
+    + destruct (Hm m') as [a _]. rewrite a. exact A3.
+    + rewrite Hstore. exact A4.
+  - rewrite F2. unfold debt. rewrite F9, F7, F4, upd_same.
+    destruct (mlost (getm w m)); [rewrite Hp; lia|rewrite Hok; lia].
+  - rewrite F9, Hok. destruct (mlost (getm w m)); discriminate.
+  - rewrite F9, Hok. destruct (mlost (getm w m)); discriminate.
+  - rewrite F3, F4. apply R6.
+Qed.
+
+(* ---- LReply1 ---- *)
+Lemma Rec_reply1 w c t m : Good w -> Rec w c -> wph w t = PReplied m -> Rec (stepT w (LReply1 t)) c.
+Proof.
+  intros (HI & HK & HG) HR Eph.
+  destruct (reply1_frame w t m Eph) as (F1 & F2 & F3 & F4 & F5 & F6 & F7 & F8 & F9).
+  pose proof (k_rep w HK t m Eph) as Hrun.
+  destruct HR as [R1 R1' R2 R3 R4 R5 R6].
+  pose proof (R3 t) as Hd. unfold debt in Hd. rewrite Hrun, Eph in Hd.
+  set (w' := stepT w (LReply1 t)) in *. clearbody w'.
+  apply (Rec_task_step w w' c t); auto.
+  - constructor; auto.
+  - intro m'. rewrite (getm_ms w w') by exact F6. auto.
+  - rewrite F5. apply R2.
+  - rewrite F1. apply R2.
+  - intros x Hx. rewrite F8, F7, F2, F4, F3. rewrite !upd_other by exact Hx. auto.
+  - intros d Hd'. destruct (readable_inv w d Hd') as (A1 & m' & r & A2 & A3 & A4).
+    assert (Hn : d <> t) by (intro E; subst d; congruence).
+    apply (readable_intro w' d m' r).
+    + rewrite F8, upd_other by exact Hn. exact A1.
+    + rewrite F9, upd_other by exact Hn. exact A2.
+    + rewrite (getm_ms w w') by exact F6. exact A3.
+    + rewrite (getm_ms w w') by exact F6. exact A4.
+  - rewrite F2. unfold debt. rewrite F8, F7, !upd_same. rewrite (getm_ms w w') by exact F6. exact Hd.
+  - rewrite F8, upd_same. discriminate.
+  - rewrite F8, upd_same. discriminate.
+  - rewrite F3, F4. apply R6.
+Qed.
+
+(* ---- LRun ---- *)
+Lemma gather_ok w m ds : (forall d, In d ds -> read_loc w d <> None) -> gather w m ds <> None.
+Proof.
+  induction ds as [|d ds IH]; intro H; cbn [gather]; [discriminate|].
+  assert (Hd : read_dep w m d <> None).
+  { unfold read_dep. destruct (read_at w m d); [discriminate|]. apply H. left. reflexivity. }
+  destruct (read_dep w m d); [|contradiction].
+  destruct (gather w m ds) eqn:E; [discriminate|]. exfalso. apply IH; [|reflexivity].
+  intros d' Hd'. apply H. right. exact Hd'.
+Qed.
+
+Lemma Rec_run w c t m : Good w -> Rec w c -> wst w t = TWaiting -> wph w t = PNone ->
+  m < length (wms w) -> mlost (getm w m) = false -> Rec (stepT w (LRun t m)) c.
+Proof.
+  intros (HI & HK & HG) HR Est Eph Hm Hl.
+  destruct (run_frame w t m Est Eph Hm Hl) as (F1 & F2 & F3 & F4 & F5 & F6 & F7 & F8).
+  pose proof (own_machines w (LRun t m) I) as Hmach.
+  destruct (g_wait w HG t Est) as [Hp _].
+  pose proof HR as [R1 R1' R2 R3 R4 R5 R6].
+  pose proof (R3 t) as Hd. unfold debt in Hd. rewrite Est in Hd.
+  (* readability is kept: the store of m only grows *)
+  assert (Hread : forall d, readable w d = true -> readable (stepT w (LRun t m)) d = true).
+  { intros d Hd'. destruct (readable_inv w d Hd') as (A1 & m' & r & A2 & A3 & A4).
+    assert (Hn : d <> t) by (intro E; subst d; congruence).
+    cbn [Control.step]. rewrite Est, Eph. apply Nat.ltb_lt in Hm. rewrite Hm, Hl. cbn [negb andb].
+    destruct (if malive (getm w m) then gather w m (deps_of g t) else None) as [ins|].
+    - assert (Hlk : exists r', lookup d (mstore (getm (commit w m t (compute t ins)) m')) = Some r').
+      { unfold commit. rewrite getm_upd, Hm, andb_true_r.
+        destruct (Nat.eqb_spec m' m) as [->|]; [|eauto].
+        cbn [mstore]. rewrite lookup_cons. apply Nat.neq_sym in Hn. apply Nat.eqb_neq in Hn.
+        rewrite Hn. eauto. }
+      destruct Hlk as [r' Hlk].
+      apply (readable_intro _ d m' r'); cbn [wst wloc set_ph set_st].
+      + change (wst (commit w m t (compute t ins))) with (wst w). rewrite upd_other by exact Hn. exact A1.
+      + exact A2.
+      + change (getm (set_ph ?a ?b)) with (getm (commit w m t (compute t ins))).
+        unfold commit. rewrite getm_upd, Hm, andb_true_r.
+        destruct (Nat.eqb_spec m' m) as [->|]; [cbn [malive]|]; exact A3.
+      + exact Hlk.
+    - apply (readable_intro _ d m' r); cbn [wst wloc set_st]; auto.
+      rewrite upd_other by exact Hn. exact A1. }
+  (* if every dependency was readable the attempt succeeds *)
+  assert (Hsucc : forallb (readable w) (deps_of g t) = true ->
+                  wst (stepT w (LRun t m)) t = TRunning).
+  { intro Hall. cbn [Control.step]. rewrite Est, Eph.
+    pose proof Hm as Hm'. apply Nat.ltb_lt in Hm'. rewrite Hm', Hl. cbn [negb andb].
+    rewrite (R1 m Hl).
+    assert (Hg : gather w m (deps_of g t) <> None).
+    { apply gather_ok. intros d Hd'. rewrite forallb_forall in Hall. specialize (Hall d Hd').
+      unfold readable in Hall. apply andb_true_iff in Hall as [_ Hall].
+      destruct (read_loc w d); [discriminate|discriminate]. }
+    destruct (gather w m (deps_of g t)); [|contradiction].
+    cbn [wst set_ph set_st]. apply upd_same. }
+  set (w' := stepT w (LRun t m)) in *. clearbody w'.
+  apply (Rec_task_step w w' c t); auto.
+  - rewrite F5. apply R2.
+  - rewrite F1. apply R2.
+  - intros x Hx. rewrite F2, F4, F3. destruct F8 as [[F8 F9]|[F8 F9]]; rewrite F8, F9;
+      rewrite ?upd_other by exact Hx; auto.
+  - rewrite F2. unfold debt. destruct F8 as [[F8 F9]|[F8 F9]]; rewrite F8, upd_same.
+    + rewrite F9, upd_same. destruct (Hmach m) as [_ b]. rewrite b, Hl. destruct (forallb _ _); lia.
+    + rewrite F4, Hp. destruct (forallb (readable w) (deps_of g t)) eqn:Fall; [|exact Hd].
+      specialize (Hsucc eq_refl). rewrite F8, upd_same in Hsucc. discriminate.
+  - intros Hr. destruct F8 as [[F8 F9]|[F8 F9]].
+    + rewrite F9, upd_same. eauto.
+    + rewrite F8, upd_same in Hr. discriminate.
+  - destruct F8 as [[F8 F9]|[F8 F9]]; rewrite F8, upd_same; discriminate.
+  - rewrite F3, F4. apply R6.
+Qed.
+
+(* ---- LReturn ---- *)
+Lemma Rec_return w c t : Good w -> Rec w c -> c < max_lost ->
+  active w = true -> mem t (wpend w) = true -> ge_ok (wst w t) = true -> wph w t = PNone ->
+  Rec (stepT w (LReturn t)) c.
+Proof.
+  intros (HI & HK & HG) HR Hc Ha Hp Hge Eph.
+  pose proof HR as [R1 R1' R2 R3 R4 R5 R6]. destruct R2 as [He Hmo].
+  destruct (return_frame w t HG He Ha Hp Hge) as (F1 & F2 & F3 & F4 & F5 & F6 & F7).
+  pose proof (R3 t) as Hd. unfold debt in Hd. rewrite Hp in Hd.
+  assert (F7' : (wst w t = TOk /\ wst (stepT w (LReturn t)) t = TOk /\ wcl (stepT w (LReturn t)) t = 0 /\
+                 wunc (stepT w (LReturn t)) t = false /\ werr (stepT w (LReturn t)) = false) \/
+                (wst w t = TLost /\ wst (stepT w (LReturn t)) t = TLost /\
+                 wcl (stepT w (LReturn t)) t = S (wcl w t) /\ S (wcl w t) <= c /\
+                 wunc (stepT w (LReturn t)) t = false /\ werr (stepT w (LReturn t)) = false)).
+  { destruct F7 as [H|[(a & b & c' & d & e & f)|(a & b & _)]]; [left; exact H| |].
+    - right. rewrite a in Hd. repeat split; auto. lia.
+    - exfalso. rewrite a in Hd. lia. }
+  clear F7.
+  set (w' := stepT w (LReturn t)) in *. clearbody w'.
+  apply (Rec_task_step w w' c t); auto.
+  - intro m'. rewrite (getm_ms w w') by exact F2. auto.
+  - destruct F7' as [(_ & _ & _ & _ & e)|(_ & _ & _ & _ & _ & e)]; exact e.
+  - rewrite F1. exact Hmo.
+  - intros x Hx. destruct (F6 x Hx) as (a & b & c'). rewrite a, b, c', F3, F5.
+    rewrite mem_rm_other by exact Hx. auto.
+  - apply readable_same; auto. intros d Hd'. destruct (Nat.eq_dec d t) as [->|Hn].
+    + destruct F7' as [(_ & b & _)|(a & _)]; [exact b|congruence].
+    + destruct (F6 d Hn) as (a & _). rewrite a. exact Hd'.
+  - unfold debt. rewrite F3, F5, mem_rm_same, Eph.
+    destruct F7' as [(a & b & c' & _)|(a & b & c' & d & _)]; rewrite b, c'; lia.
+  - destruct F7' as [(_ & b & _)|(_ & b & _)]; rewrite b; discriminate.
+  - rewrite F5, mem_rm_same. discriminate.
+  - destruct F7' as [(_ & _ & _ & d & _)|(_ & _ & _ & _ & d & _)]; rewrite d; discriminate.
+Qed.
+
+(* ---- LDispatch ---- *)
+Lemma enq_ready w : forall f x t, In t (enq g f w x) ->
+  forallb (fun d => is_ok (wst w d)) (deps_of g t) = true.
+Proof.
+  induction f as [|f IH]; intros x t H; cbn [enq] in H; [destruct H|].
+  destruct (mem x (wpend w)); [destruct H|].
+  destruct (wst w x); try (destruct H; fail).
+  - destruct (forallb _ (deps_of g x)) eqn:E.
+    + destruct H as [<-|[]]. exact E.
+    + apply in_flat_map in H as [d [_ Hd]]. eapply IH; eauto.
+  - destruct (forallb _ (deps_of g x)) eqn:E.
+    + destruct H as [<-|[]]. exact E.
+    + apply in_flat_map in H as [d [_ Hd]]. eapply IH; eauto.
+Qed.
+
+Lemma dispatch_eq w t : active w = true -> mem t (runnable g roots w) = true -> wunc w t = false ->
+  stepT w (LDispatch t) =
+  set_pend (set_unc (set_st w (upd (wst w) t TWaiting)) (upd (wunc w) t true)) (t :: wpend w).
+Proof.
+  intros Ha Hr Hu. cbn [Control.step]. rewrite Ha, Hr. cbn [andb].
+  destruct (runnable_sound g roots w t Hr) as [Hs _].
+  unfold count_lost. rewrite Hu.
+  assert (E : (if st_eqb (wst w t) TLost then w else w) = w) by (destruct (st_eqb _ _); reflexivity).
+  rewrite E. destruct (st_eqb (wst w t) TErr) eqn:E2; [|reflexivity].
+  destruct Hs as [Es|Es]; rewrite Es in E2; discriminate.
+Qed.
+
+(* an OK task that Run has finished with is readable *)
+Lemma settled_readable w c d : Good w -> Rec w c -> wst w d = TOk -> wph w d = PNone ->
+  readable w d = true.
+Proof.
+  intros (HI & HK & HG) HR Hok Eph.
+  destruct (i_okloc compute g roots w HI d Hok) as [m Hl].
+  destruct (k_settled w HK d m Hok Eph Hl) as [Hnl _].
+  pose proof (r_alive w c HR m Hnl) as Ha.
+  apply (readable_intro w d m (value compute g d)); auto.
+  apply (i_has compute g roots w HI); auto.
+Qed.
+
+Lemma Rec_dispatch w c t : Good w -> Rec w c ->
+  (forall x, x < n -> wph w x = PNone) ->
+  active w = true -> mem t (runnable g roots w) = true -> Rec (stepT w (LDispatch t)) c.
+Proof.
+  intros HGood HR Hnone Ha Hr.
+  destruct (runnable_sound g roots w t Hr) as [Hs Hnp].
+  assert (Ht : t < n) by (apply runnable_lt with w; apply mem_In; exact Hr).
+  pose proof HR as [R1 R1' R2 R3 R4 R5 R6].
+  assert (Hu : wunc w t = false).
+  { destruct (wunc w t) eqn:E; [|reflexivity]. rewrite (R6 t E) in Hnp. discriminate. }
+  rewrite (dispatch_eq w t Ha Hr Hu).
+  assert (Hdeps : forallb (readable w) (deps_of g t) = true).
+  { apply mem_In in Hr. unfold runnable in Hr. apply in_flat_map in Hr as [x [_ Hx]].
+    pose proof (enq_ready w _ x t Hx) as Hok. rewrite forallb_forall in *.
+    intros d Hd. specialize (Hok d Hd). unfold is_ok in Hok.
+    apply (settled_readable w c); auto.
+    - destruct (wst w d); try discriminate; reflexivity.
+    - apply Hnone. pose proof (deps_lt g roots Hwf t d Hd). lia. }
+  match goal with |- Rec ?W c => set (w' := W) end.
+  assert (Hread : forall d, readable w d = true -> readable w' d = true).
+  { apply readable_same; try reflexivity. intros d Hd. unfold w'. cbn [wst set_pend set_unc set_st].
+    unfold upd. destruct (Nat.eqb_spec d t) as [->|]; [|exact Hd].
+    destruct Hs as [E|E]; congruence. }
+  apply (Rec_task_step w w' c t); auto.
+  - apply R2.
+  - apply R2.
+  - intros x Hx. unfold w'. cbn [wst wph wcl wpend wunc set_pend set_unc set_st].
+    rewrite !upd_other by exact Hx. rewrite mem_cons_other by exact Hx. auto.
+  - unfold debt. unfold w' at 1 2. cbn [wst wcl set_pend set_unc set_st]. rewrite upd_same.
+    assert (F : forallb (readable w') (deps_of g t) = true).
+    { rewrite forallb_forall in *. intros d Hd. apply Hread. apply Hdeps. exact Hd. }
+    rewrite F. specialize (R3 t). lia.
+  - unfold w'. cbn [wst set_pend set_unc set_st]. rewrite upd_same. discriminate.
+  - unfold w'. cbn [wst set_pend set_unc set_st]. rewrite upd_same. discriminate.
+  - intros _. unfold w'. cbn [wpend set_pend]. apply mem_cons_same.
+Qed.
+
+(* ---- mode steps ---- *)
+Lemma Rec_mode w c x : Rec w c -> x <> MFail -> Rec (set_mode w x) c.
+Proof.
+  intros [R1 R1' R2 R3 R4 R5 R6] Hx. constructor; auto. split; [apply R2|exact Hx].
+Qed.
+
+Lemma scan_start_nofail i acc : scan_start roots i acc <> MFail.
+Proof. unfold scan_start. destruct (nth_error roots i); discriminate. Qed.
+
+Lemma Rec_finish w c : Rec w c -> finish_ok roots w = true -> Rec (stepT w LFinish) c.
+Proof.
+  intros HR H. destruct (finish_eq w H) as [E _]. rewrite E. apply Rec_mode; [exact HR|apply scan_start_nofail].
+Qed.
+
+Lemma Rec_scan w c : Good w -> Rec w c -> (forall x, x < n -> wph w x = PNone) ->
+  scan_ok roots w = true -> Rec (stepT w LScan) c.
+Proof.
+  intros HGood HR Hnone H. destruct (scan_eq w H) as (i & acc & k & r & Em & Er & Hok & _ & E). rewrite E.
+  apply Rec_mode; [exact HR|].
+  assert (Hr : r < n) by (apply roots_lt; eapply nth_error_In; eauto).
+  pose proof (settled_readable w c r HGood HR Hok (Hnone r Hr)) as Hrd.
+  unfold readable in Hrd. apply andb_true_iff in Hrd as [_ Hrd].
+  destruct (read_loc w r); [apply scan_start_nofail|discriminate].
+Qed.
+
+(* ---- LStart ---- *)
+Lemma getm_start w m : m < length (wms w) -> getm (stepT w LStart) m = getm w m.
+Proof. intro H. cbn [Control.step]. unfold getm at 1. cbn [wms set_ms]. apply getm_app. exact H. Qed.
+
+Lemma getm_start_new w : getm (stepT w LStart) (length (wms w)) = mkM true false [] [].
+Proof. cbn [Control.step]. unfold getm. cbn [wms set_ms]. apply nth_middle. Qed.
+
+Lemma getm_start_out w m : length (wms w) < m -> getm (stepT w LStart) m = dead_mach.
+Proof.
+  intro H. cbn [Control.step]. unfold getm. cbn [wms set_ms]. apply nth_overflow.
+  rewrite app_length. cbn. lia.
+Qed.
+
+Lemma Rec_start w c : Good w -> Rec w c -> Rec (stepT w LStart) c.
+Proof.
+  intros (HI & HK & HG) [R1 R1' R2 R3 R4 R5 R6].
+  assert (Hread : forall d, readable w d = true -> readable (stepT w LStart) d = true).
+  { intros d Hd. destruct (readable_inv w d Hd) as (A1 & m' & r & A2 & A3 & A4).
+    pose proof (i_locb compute g roots w HI d m' A2) as Hlt.
+    apply (readable_intro _ d m' r); auto; rewrite getm_start by exact Hlt; assumption. }
+  constructor; auto.
+  - intro m. destruct (Nat.lt_trichotomy m (length (wms w))) as [Hl|[->|Hg]].
+    + rewrite getm_start by exact Hl. apply R1.
+    + rewrite getm_start_new. reflexivity.
+    + rewrite getm_start_out by exact Hg. discriminate.
+  - intro m. destruct (Nat.lt_trichotomy m (length (wms w))) as [Hl|[->|Hg]].
+    + rewrite getm_start by exact Hl. apply R1'.
+    + rewrite getm_start_new. discriminate.
+    + rewrite getm_start_out by exact Hg. reflexivity.
+  - intro t. change (wcl (stepT w LStart) t) with (wcl w t).
+    assert (debt (stepT w LStart) t <= debt w t); [|specialize (R3 t); lia].
+    pose proof (getm_start w) as Hg.
+    set (w' := stepT w LStart) in *.
+    assert (E1 : wst w' = wst w) by reflexivity.
+    assert (E2 : wph w' = wph w) by reflexivity.
+    assert (E3 : wpend w' = wpend w) by reflexivity.
+    clearbody w'. unfold debt. rewrite E1, E2, E3.
+    destruct (wst w t); try lia.
+    + destruct (forallb (readable w) (deps_of g t)) eqn:F.
+      * assert (F' : forallb (readable w') (deps_of g t) = true).
+        { rewrite forallb_forall in *. intros d Hd. apply Hread. apply F. exact Hd. }
+        rewrite F'. lia.
+      * destruct (forallb (readable w') (deps_of g t)); auto with arith.
+    + destruct (wph w t) as [|m|m] eqn:Eph; try lia.
+      rewrite Hg by (apply (i_phb compute g roots w HI t m); auto). lia.
+    + destruct (wph w t) as [|m|m] eqn:Eph; try lia.
+      rewrite Hg by (apply (i_phb compute g roots w HI t m); auto). lia.
+Qed.
+
+(* ---- a machine loss: kill, noticed at once ---- *)
+Definition crash (w : world) (m : nat) : world := stepT (stepT w (LKill m)) (LNotice m).
+
+Lemma crash_out w m : length (wms w) <= m -> crash w m = w.
+Proof.
+  intro H. unfold crash. cbn [Control.step].
+  apply Nat.ltb_ge in H. rewrite H. rewrite H. reflexivity.
+Qed.
+
+Lemma crash_in w m : m < length (wms w) ->
+  let w' := crash w m in
+  (forall m', getm w' m' = if Nat.eqb m' m then mkM false true [] [] else getm w m') /\
+  length (wms w') = length (wms w) /\
+  (forall t, wst w' t = if mem t (mtasks (getm w m)) then TLost else wst w t) /\
+  wph w' = wph w /\ wcl w' = wcl w /\ wunc w' = wunc w /\ wloc w' = wloc w /\
+  wpend w' = wpend w /\ werr w' = werr w /\ wmode w' = wmode w.
+Proof.
+  intro Hm. unfold crash. cbn [Control.step]. apply Nat.ltb_lt in Hm.
+  rewrite Hm. set (x := mkM false (mlost (getm w m)) (mtasks (getm w m)) []).
+  assert (Hlen : length (wms (upd_mach w m x)) = length (wms w)) by (cbn; apply length_set_nth).
+  rewrite Hlen, Hm.
+  assert (Hx : getm (upd_mach w m x) m = x) by (apply getm_upd_same; apply Nat.ltb_lt; exact Hm).
+  rewrite Hx. cbn [malive mlost mtasks mstore x].
+  repeat split; auto.
+  - intro m'. change (getm (set_st ?a ?b)) with (getm a). rewrite getm_upd.
+    rewrite Hlen, Hm, andb_true_r.
+    destruct (Nat.eqb_spec m' m) as [->|Hn]; [reflexivity|].
+    rewrite getm_upd. apply Nat.eqb_neq in Hn. rewrite Hn. reflexivity.
+  - cbn. rewrite !length_set_nth. reflexivity.
+  - intro t. cbn [wst set_st]. rewrite mark_lost_spec. reflexivity.
+Qed.
+
+Lemma Rec_crash w c m : Rec w c -> Rec (crash w m) (S c).
+Proof.
+  intro HR. destruct (Nat.lt_ge_cases m (length (wms w))) as [Hm|Hm].
+  2:{ rewrite crash_out by exact Hm. apply (Rec_weaken w c); [lia|exact HR]. }
+  destruct (crash_in w m Hm) as (Cg & Clen & Cst & Cph & Ccl & Cunc & Cloc & Cpend & Cerr & Cmode).
+  destruct HR as [R1 R1' R2 R3 R4 R5 R6].
+  set (w' := crash w m) in *. clearbody w'.
+  constructor.
+  - intro m'. rewrite Cg. destruct (Nat.eqb m' m); [discriminate|apply R1].
+  - intro m'. rewrite Cg. destruct (Nat.eqb m' m); [reflexivity|apply R1'].
+  - rewrite Cerr, Cmode. exact R2.
+  - intro t. rewrite Ccl. pose proof (debt_le1 w' t). pose proof (R3 t). lia.
+  - intro t. rewrite Cst, Cph. destruct (mem t _); [discriminate|apply R4].
+  - intro t. rewrite Cst, Cpend. intro H. destruct (mem t (mtasks _)); [discriminate|apply R5; exact H].
+  - rewrite Cunc, Cpend. exact R6.
+Qed.
+
+Lemma Good_crash w m : Good w -> Good (crash w m).
+Proof. intro H. unfold crash. apply Good_env; [reflexivity|]. apply Good_env; [reflexivity|exact H]. Qed.
+
+(* ---- every own step keeps the loss budget ---- *)
+Lemma all_none w :
+  G w ->
+  find_task g (fun t => is_mid (wph w t)) = None ->
+  find_task g (fun t => is_replied (wph w t)) = None -> forall x, wph w x = PNone.
+Proof.
+  intros HG H1 H2 x. destruct (wph w x) eqn:E; [reflexivity| |].
+  - assert (Hx : x < n) by (apply (g_phlt w HG); congruence).
+    rewrite (phase_none w x H1 H2 Hx) in E. discriminate.
+  - assert (Hx : x < n) by (apply (g_phlt w HG); congruence).
+    rewrite (phase_none w x H1 H2 Hx) in E. discriminate.
+Qed.
+
+Lemma Rec_own spares w c l :
+  Good w -> Rec w c -> c < max_lost -> nextT spares w = Some l -> Rec (stepT w l) c.
+Proof.
+  intros HGood HR Hc Hn. pose proof HGood as (HI & HK & HG).
+  unfold next in Hn.
+  destruct (find_task g (fun t => is_mid (wph w t))) as [t|] eqn:Fm.
+  { inversion Hn; subst l. apply find_task_some in Fm as [Ht Hp].
+    destruct (wph w t) as [| |m] eqn:Eph; try discriminate. eapply Rec_reply2; eauto. }
+  destruct (find_task g (fun t => is_replied (wph w t))) as [t|] eqn:Fr.
+  { inversion Hn; subst l. apply find_task_some in Fr as [Ht Hp].
+    destruct (wph w t) as [|m|] eqn:Eph; try discriminate. eapply Rec_reply1; eauto. }
+  pose proof (all_none w HG Fm Fr) as Hnone.
+  assert (Hrest :
+    match (if active w then find (fun t => ge_ok (wst w t)) (wpend w) else None) with
+    | Some t => Some (LReturn t)
+    | None => match (if active w then runnable g roots w else []) with
+              | t :: _ => Some (LDispatch t)
+              | [] => if finish_ok roots w then Some LFinish
+                      else if scan_ok roots w then Some LScan else None
+              end
+    end = Some l -> Rec (stepT w l) c).
+  { clear Hn. intro Hn.
+    destruct (if active w then find (fun t => ge_ok (wst w t)) (wpend w) else None) as [t|] eqn:Fret.
+    { inversion Hn; subst l. destruct (active w) eqn:Ha; [|discriminate].
+      apply find_some in Fret as [Hin Hge]. apply mem_In in Hin.
+      apply Rec_return; auto. }
+    destruct (if active w then runnable g roots w else []) as [|t rest] eqn:Frun.
+    2:{ inversion Hn; subst l. destruct (active w) eqn:Ha; [|discriminate].
+        assert (Hr : mem t (runnable g roots w) = true) by (apply mem_In; rewrite Frun; left; reflexivity).
+        apply Rec_dispatch; auto. }
+    destruct (finish_ok roots w) eqn:Ff.
+    { inversion Hn; subst l. apply Rec_finish; auto. }
+    destruct (scan_ok roots w) eqn:Fs; [|discriminate].
+    inversion Hn; subst l. apply Rec_scan; auto. }
+  destruct (find_task g (fun t => st_eqb (wst w t) TWaiting && is_none (wph w t))) as [t|] eqn:Fw;
+    [|apply Hrest; exact Hn].
+  apply find_task_some in Fw as [Ht Hp]. apply andb_true_iff in Hp as [Hp1 Hp2].
+  assert (Est : wst w t = TWaiting) by (destruct (wst w t); try discriminate; reflexivity).
+  destruct (pick_machine w) as [m|] eqn:Fp.
+  { inversion Hn; subst l. apply pick_machine_some in Fp as [Hm Hl]. apply Rec_run; auto. }
+  destruct spares as [|sp]; [apply Hrest; exact Hn|].
+  inversion Hn; subst l. apply Rec_start; auto.
+Qed.
+
+(* ---- a machine is available, or can still be started ---- *)
+Definition has_machine (w : world) : nat := match pick_machine w with Some _ => 1 | None => 0 end.
+
+Lemma find_ext' {X} (p q : X -> bool) l : (forall x, p x = q x) -> find p l = find q l.
+Proof. intro H. induction l as [|x l IH]; cbn [find]; [reflexivity|]. rewrite H, IH. reflexivity. Qed.
+
+Lemma pick_ext w w' : length (wms w') = length (wms w) ->
+  (forall m, mlost (getm w' m) = mlost (getm w m)) -> pick_machine w' = pick_machine w.
+Proof.
+  intros Hl Hm. unfold pick_machine. rewrite Hl. apply find_ext'. intro m. rewrite Hm. reflexivity.
+Qed.
+
+Lemma own_length w l :
+  match l with LKill _ | LNotice _ | LStart => False | _ => True end ->
+  length (wms (stepT w l)) = length (wms w).
+Proof.
+  intros Hl. destruct l; try contradiction; cbn [Control.step].
+  - destruct (active w && mem t (runnable g roots w)); [|auto].
+    match goal with |- context [if ?c then count_lost _ _ _ else _] => destruct c end;
+      unfold count_lost; repeat match goal with |- context [if ?c then _ else _] => destruct c end; auto.
+  - destruct (wst w t); auto. destruct (wph w t); auto.
+    destruct (Nat.ltb m (length (wms w)) && negb (mlost (getm w m))); auto.
+    destruct (if malive (getm w m) then gather w m (deps_of g t) else None); auto.
+    cbn. apply length_set_nth.
+  - destruct (wph w t); auto.
+  - destruct (wph w t); auto. cbn [wms set_ph].
+    destruct (assign_frame w m t) as (A & _). exact A.
+  - destruct (active w && mem t (wpend w) && ge_ok (wst w t)); auto.
+    destruct (wst w t); unfold count_lost;
+      repeat match goal with |- context [if ?c then _ else _] => destruct c end; auto.
+  - destruct (wmode w); auto. match goal with |- context [if ?c then _ else _] => destruct c end; auto.
+  - destruct (wmode w); auto. destruct (nth_error roots i) as [r|]; auto.
+    match goal with |- context [if ?c && _ && _ then _ else _] => destruct c end; cbn [andb]; auto.
+    match goal with |- context [if ?c && _ then _ else _] => destruct c end; cbn [andb]; auto.
+    destruct (is_ok (wst w r)); auto.
+    destruct (read_loc w r); auto.
+Qed.
+
+Lemma next_kind spares w l : nextT spares w = Some l ->
+  (l = LStart /\ pick_machine w = None /\ exists sp, spares = S sp) \/
+  match l with LKill _ | LNotice _ | LStart => False | _ => True end.
+Proof.
+  unfold next. intro H.
+  repeat match type of H with
+  | match ?c with _ => _ end = _ => destruct c eqn:?
+  | (if ?c then _ else _) = _ => destruct c eqn:?
+  end; inversion H; subst; try (right; exact I); try discriminate.
+  left. repeat split; eauto.
+Qed.
+
+Lemma has_start w : has_machine (stepT w LStart) = 1.
+Proof.
+  pose proof (getm_start_new w) as Hnew.
+  assert (Hlen : length (wms (stepT w LStart)) = S (length (wms w))).
+  { cbn. rewrite app_length. cbn. lia. }
+  set (w' := stepT w LStart) in *. clearbody w'.
+  unfold has_machine, pick_machine. destruct (find _ _) eqn:E; [reflexivity|].
+  exfalso. pose proof (find_none _ _ E (length (wms w))) as H. cbn beta in H.
+  rewrite Hnew in H. cbn in H. assert (false = true); [|discriminate].
+  symmetry. apply H. apply in_seq. lia.
+Qed.
+
+Lemma has_own spares w l : nextT spares w = Some l ->
+  has_machine (stepT w l) + spend l spares = has_machine w + spares.
+Proof.
+  intro Hn. destruct (next_kind spares w l Hn) as [(-> & Hp & sp & ->)|Hk].
+  - rewrite has_start. unfold has_machine. rewrite Hp. unfold spend. cbn. lia.
+  - assert (E : pick_machine (stepT w l) = pick_machine w).
+    { apply pick_ext; [apply own_length; exact Hk|]. intro m. apply (own_machines w l Hk). }
+    unfold has_machine. rewrite E. unfold spend. destruct l; try contradiction; reflexivity.
+Qed.
+
+(* ---- the driver is never stuck while a machine is available or can be started ---- *)
+Lemma flat_map_nil {X Y} (f : X -> list Y) l : flat_map f l = [] -> forall x, In x l -> f x = [].
+Proof.
+  induction l as [|y l IH]; intros H x Hx; [destruct Hx|]. cbn [flat_map] in H.
+  apply app_eq_nil in H as [H1 H2]. destruct Hx as [<-|Hx]; auto.
+Qed.
+
+Lemma enq_nil w : wpend w = [] ->
+  (forall t, wst w t = TInit \/ wst w t = TLost \/ wst w t = TOk) ->
+  forall f x, x < f -> enq g f w x = [] -> wst w x = TOk.
+Proof.
+  intros Hp Hs. induction f as [|f IH]; intros x Hx H; [lia|]. cbn [enq] in H.
+  rewrite Hp in H. cbn [mem existsb] in H.
+  assert (Hdeps : flat_map (enq g f w) (deps_of g x) = [] ->
+                  forallb (fun d => is_ok (wst w d)) (deps_of g x) = true).
+  { intro Hf. apply forallb_forall. intros d Hd.
+    pose proof (deps_lt g roots Hwf x d Hd) as Hlt.
+    rewrite (IH d); [reflexivity|lia|]. apply (flat_map_nil _ _ Hf d Hd). }
+  destruct (Hs x) as [E|[E|E]]; [| |exact E]; rewrite E in H.
+  - destruct (forallb (fun d => is_ok (wst w d)) (deps_of g x)) eqn:F; [discriminate H|].
+    discriminate (Hdeps H).
+  - destruct (forallb (fun d => is_ok (wst w d)) (deps_of g x)) eqn:F; [discriminate H|].
+    discriminate (Hdeps H).
+Qed.
+
+Lemma no_stall spares w c :
+  Good w -> Rec w c -> outcome_of w = None -> 0 < has_machine w + spares ->
+  nextT spares w <> None.
+Proof.
+  intros (HI & HK & HG) HR Ho Hpos Hn.
+  destruct (outcome_none w Ho) as [He Hmode].
+  assert (Ha : active w = true).
+  { unfold active. rewrite He. destruct Hmode as [->|(i & acc & k & ->)]; reflexivity. }
+  unfold next in Hn.
+  destruct (find_task g (fun t => is_mid (wph w t))) eqn:Fm; [discriminate|].
+  destruct (find_task g (fun t => is_replied (wph w t))) eqn:Fr; [discriminate|].
+  pose proof (all_none w HG Fm Fr) as Hnone.
+  assert (Hnw : forall t, wst w t <> TWaiting).
+  { intros t Et. destruct (g_wait w HG t Et) as [Hp _].
+    pose proof (g_lt w HG t Hp) as Ht.
+    destruct (find_task g (fun t => st_eqb (wst w t) TWaiting && is_none (wph w t))) eqn:Fw.
+    - unfold has_machine in Hpos. destruct (pick_machine w); [discriminate|].
+      destruct spares; [lia|discriminate].
+    - pose proof (find_task_none _ Fw t Ht) as Hf. cbn beta in Hf.
+      rewrite Et, (Hnone t) in Hf. discriminate. }
+  assert (Hrest :
+    match (if active w then find (fun t => ge_ok (wst w t)) (wpend w) else None) with
+    | Some t => Some (LReturn t)
+    | None => match (if active w then runnable g roots w else []) with
+              | t :: _ => Some (LDispatch t)
+              | [] => if finish_ok roots w then Some LFinish
+                      else if scan_ok roots w then Some LScan else None
+              end
+    end = None).
+  { destruct (find_task g (fun t => st_eqb (wst w t) TWaiting && is_none (wph w t))); [|exact Hn].
+    destruct (pick_machine w); [discriminate|]. destruct spares; [exact Hn|discriminate]. }
+  clear Hn. rewrite Ha in Hrest.
+  destruct (find (fun t => ge_ok (wst w t)) (wpend w)) eqn:Fret; [discriminate|].
+  assert (Hst : forall t, wst w t = TInit \/ wst w t = TLost \/ wst w t = TOk).
+  { intro t. destruct (wst w t) eqn:E; auto.
+    - exfalso. exact (Hnw t E).
+    - exfalso. destruct (r_run w c HR t E) as [m Hm]. rewrite (Hnone t) in Hm. discriminate.
+    - exfalso. destruct (g_cl w HG He t) as [Hne _]. contradiction. }
+  assert (Hpend : wpend w = []).
+  { destruct (wpend w) as [|t l] eqn:Ep; [reflexivity|]. exfalso.
+    assert (Hin : In t (wpend w)) by (rewrite Ep; left; reflexivity).
+    rewrite <- Ep in Fret. pose proof (find_none _ _ Fret t Hin) as Hge. cbn beta in Hge.
+    apply mem_In in Hin. pose proof (r_init w c HR t Hin) as Hni.
+    destruct (Hst t) as [E|[E|E]]; rewrite E in *; try discriminate. contradiction. }
+  destruct (runnable g roots w) eqn:Frun; [|discriminate].
+  assert (Htargets : forall r, In r (targets roots w) -> wst w r = TOk).
+  { intros r Hr. apply (enq_nil w Hpend Hst (S n) r).
+    - pose proof (targets_lt w r Hr). lia.
+    - unfold runnable in Frun. apply (flat_map_nil _ _ Frun r Hr). }
+  destruct Hmode as [Em|(i & acc & k & Em)].
+  - assert (Hf : finish_ok roots w = true).
+    { unfold finish_ok. rewrite Em, Ha. unfold nopend. rewrite Hpend. cbn [andb].
+      apply forallb_forall. intros r Hr. rewrite (Htargets r); [reflexivity|].
+      unfold targets. rewrite Em. exact Hr. }
+    rewrite Hf in Hrest. discriminate.
+  - pose proof (g_scan w HG) as Hs. rewrite Em in Hs. destruct Hs as [Hi _].
+    destruct (nth_error roots i) as [r|] eqn:Er; [|apply nth_error_None in Er; lia].
+    assert (Hs : scan_ok roots w = true).
+    { unfold scan_ok. rewrite Em, Er, Ha. unfold nopend. rewrite Hpend. cbn [andb].
+      rewrite (Htargets r); [reflexivity|]. unfold targets. rewrite Em, Er. left. reflexivity. }
+    assert (Hf : finish_ok roots w = false) by (unfold finish_ok; rewrite Em; reflexivity).
+    rewrite Hf, Hs in Hrest. discriminate.
+Qed.
+
+(* ------------------------------------------------------------------ recovery *)
+
+(* machine losses: (own steps before the loss, machine).  The driver notices a
+   loss at once (no own step between the death and the notice). *)
+Definition crashes (cs : list (nat * nat)) : list (nat * label) :=
+  flat_map (fun p => [(fst p, LKill (snd p)); (0, LNotice (snd p))]) cs.
+
+Lemma outcome_kill w m : outcome_of (stepT w (LKill m)) = outcome_of w.
+Proof. cbn [Control.step]. destruct (Nat.ltb m (length (wms w))); reflexivity. Qed.
+
+Lemma has_le1 w : has_machine w <= 1.
+Proof. unfold has_machine. destruct (pick_machine w); lia. Qed.
+
+Lemma drive_rec : forall fuel spares w cs c,
+  Good w -> Rec w c -> c + length cs < max_lost -> length cs < has_machine w + spares ->
+  driveT fuel spares w (crashes cs) = Success (ff_rows compute g roots) \/
+  driveT fuel spares w (crashes cs) = OutOfFuel.
+Proof.
+  induction fuel as [fuel IH] using lt_wf_ind. intros spares w cs c HGood HR Hc Hh.
+  destruct fuel as [|f]; [right; reflexivity|].
+  cbn [drive]. destruct (outcome_of w) as [o|] eqn:Eo.
+  { left. destruct HGood as (HI & _). destruct (r_err w c HR) as [He Hmo].
+    unfold outcome_of in Eo. destruct (wmode w) eqn:Em; try congruence.
+    - rewrite He in Eo. discriminate.
+    - rewrite He in Eo. discriminate.
+    - inversion Eo; subst o. f_equal.
+      apply (outcome_success_exact compute g roots w out HI).
+      unfold outcome_of. rewrite Em. reflexivity. }
+  assert (Hown : forall l cs', nextT spares w = Some l -> length cs' = length cs ->
+     driveT f (if is_start l then pred spares else spares) (stepT w l) (crashes cs')
+       = Success (ff_rows compute g roots) \/
+     driveT f (if is_start l then pred spares else spares) (stepT w l) (crashes cs') = OutOfFuel).
+  { intros l cs' En Hl. destruct (outcome_none w Eo) as [He _].
+    destruct (next_progress spares w l HGood He En) as [HG' _].
+    apply (IH f (Nat.lt_succ_diag_r f) _ _ cs' c); auto.
+    - eapply Rec_own; eauto. lia.
+    - lia.
+    - pose proof (has_own spares w l En) as E. unfold spend in E. lia. }
+  destruct cs as [|[k m] cs'].
+  - cbn [crashes flat_map]. destruct (nextT spares w) as [l|] eqn:En.
+    + apply (Hown l []); auto.
+    + exfalso. apply (no_stall spares w c HGood HR Eo); [cbn [length] in Hh; lia|exact En].
+  - assert (Hkill : driveT f spares (stepT w (LKill m)) ((0, LNotice m) :: crashes cs')
+                      = Success (ff_rows compute g roots) \/
+                    driveT f spares (stepT w (LKill m)) ((0, LNotice m) :: crashes cs') = OutOfFuel).
+    { destruct f as [|f']; [right; reflexivity|]. cbn [drive]. rewrite outcome_kill, Eo.
+      fold (crash w m). cbn [length] in *.
+      apply (IH f') with (c := S c); [lia|apply Good_crash; exact HGood|apply Rec_crash; exact HR|lia|].
+      pose proof (has_le1 w). lia. }
+    change (crashes ((k, m) :: cs')) with ((k, LKill m) :: (0, LNotice m) :: crashes cs').
+    destruct k as [|k']; [exact Hkill|].
+    destruct (nextT spares w) as [l|] eqn:En; [|exact Hkill].
+    change ((k', LKill m) :: (0, LNotice m) :: crashes cs') with (crashes ((k', m) :: cs')).
+    apply (Hown l ((k', m) :: cs')); auto.
+Qed.
+
+Lemma crashes_env cs : env_inj (crashes cs).
+Proof.
+  unfold env_inj, crashes. induction cs as [|p cs IH]; cbn [flat_map app]; [constructor|].
+  constructor; [reflexivity|]. constructor; [reflexivity|exact IH].
+Qed.
+
+Lemma crashes_length cs : length (crashes cs) = 2 * length cs.
+Proof. induction cs as [|p cs IH]; cbn [crashes flat_map app length] in *; [reflexivity|]. unfold crashes in IH. lia. Qed.
+
+(* RECOVERY.  From [k] >= 1 machines, with [ncrash] machine losses at arbitrary
+   points of the run (each noticed at once), fewer losses than maxConsecutiveLost,
+   and as many replacement machines available as there are losses: the run
+   completes successfully with exactly the failure-free rows. *)
+Theorem recovery : forall k spares cs fuel,
+  1 <= k -> length cs < max_lost -> length cs <= spares ->
+  fuel_bound (2 * length cs) spares <= fuel ->
+  driveT fuel spares (init_world k) (crashes cs) = Success (ff_rows compute g roots).
+Proof.
+  intros k spares cs fuel Hk Hml Hsp Hf.
+  assert (Hhas : has_machine (init_world k) = 1).
+  { unfold has_machine, pick_machine. destruct (find _ _) eqn:E; [reflexivity|]. exfalso.
+    pose proof (find_none _ _ E 0) as H. cbn beta in H. rewrite getm_init in H.
+    assert (Hin : In 0 (seq 0 (length (wms (init_world k))))).
+    { apply in_seq. cbn [wms init_world]. rewrite repeat_length. lia. }
+    specialize (H Hin). destruct (Nat.ltb_spec 0 k); [discriminate|lia]. }
+  destruct (drive_rec fuel spares (init_world k) cs 0 (Good_init k) (Rec_init k)) as [H|H]; auto.
+  - rewrite Hhas. lia.
+  - exfalso. revert H. apply never_hangs; [apply crashes_env|]. rewrite crashes_length. exact Hf.
+Qed.
+End Live.
